@@ -100,3 +100,36 @@ func H_C18_variables() {
 	}
 	vDone()
 }
+
+// c18Letter: any Unicode scalar value (the solver picks the letters).
+func c18Letter(tag string) rune {
+	r := vRune(tag)
+	vAssume(vOr(vAnd(r >= 0, r < 0xD800), vAnd(r > 0xDFFF, r <= 0x10FFFF)))
+	return r
+}
+
+// H_C18_casefold: two names that differ in one (symbolic) character: they denote the same
+// entry exactly when they are equal up to letter case - for every pair of characters, also
+// those whose two cases have encodings of different lengths.
+func H_C18_casefold() {
+	n1 := "v" + string(c18Letter("n1")) + "x"
+	n2 := "V" + string(c18Letter("n2")) + "X"
+	c := NewVariableCollection()
+	v1 := NewVariable(n1, variants.VariantFromInteger(1))
+	c.Add(v1)
+	same := strings.ToUpper(n1) == strings.ToUpper(n2)
+	if same {
+		vAssert(c.FindByName(n2) == v1, "casefold:found-in-the-other-case")
+		vAssert(c.FindIndexByName(n2) == 0, "casefold:index")
+		vAssert(c.Locate(n2) == v1 && c.Length() == 1, "casefold:locate-keeps-the-entry")
+		c.RemoveByName(n2)
+		vAssert(c.Length() == 0, "casefold:removed-by-the-other-case")
+	} else {
+		vAssert(c.FindByName(n2) == nil && c.FindIndexByName(n2) == -1, "casefold:different-names-differ")
+		l := c.Locate(n2)
+		vAssert(l != nil && l != v1 && c.Length() == 2, "casefold:locate-adds")
+		c.RemoveByName(n2)
+		vAssert(c.Length() == 1 && c.Get(0) == v1, "casefold:removes-only-its-own")
+	}
+	vDone()
+}
